@@ -144,6 +144,7 @@ Definition xpc_ok (s : tstate) (xp : xpc) : Prop :=
   | XnUnlock _ => is_unl_pc (t_pc s) = true
   | XnReady om | XnSem om | XnDeq om | XnSpin om => t_pc s = Idle /\ match om with Some _ => held s = None | None => True end
   | XnReacq m => is_acq_pc m (t_pc s) = true
+  | XgStore m => t_pc s = Idle /\ held s = Some m
   end.
 (* every logged return of XWait m holds the mutex in mode m *)
 Definition rets_ok (xs : xtstate) : Prop := forall r, In r (x_rets xs) -> snd r = Some (fst r).
@@ -242,7 +243,7 @@ Proof.
   { destruct H0 as (_ & <- & _). apply xget_inb. rewrite Hx. discriminate. }
   pose proof H0 as (HI & HL & HT). destruct (HT t) as [_ Hr]. rewrite Hx in Hr.
   pose proof (mu_idle_pc _ _ MI) as PI.
-  destruct o as [o'|m| | |om].
+  destruct o as [o'|m| | |om|m].
   - (* XOp *) xnorm. unfold push_op; cbn [mw].
     apply XInv_upd; auto.
     + unfold set_t, Inv; cbn [word thr]. eapply InvL_upd; [exact HI | exact Ht | |].
@@ -258,6 +259,10 @@ Proof.
   - xnorm. rewrite nth_lupd_same by (rewrite HL; exact Ht). cbn [x_ops x_rets]. apply XInv_upd; auto.
   - (* XWaitN *) destruct om as [m|]; xnorm; rewrite nth_lupd_same by (rewrite HL; exact Ht); cbn [x_ops x_rets];
       (apply XInv_upd; auto); [|cbn [x_pc xpc_ok]; auto].
+    destruct (held (get (mw xw) t)) as [m'|] eqn:Hh; cbn [x_pc]; [|exact PI].
+    destruct (mode_eqb m m') eqn:E; [|exact PI]. apply mode_eqb_eq in E. subst m'. split; assumption.
+  - (* XWaitG *) xnorm. rewrite nth_lupd_same by (rewrite HL; exact Ht). cbn [x_ops x_rets].
+    apply XInv_upd; auto.
     destruct (held (get (mw xw) t)) as [m'|] eqn:Hh; cbn [x_pc]; [|exact PI].
     destruct (mode_eqb m m') eqn:E; [|exact PI]. apply mode_eqb_eq in E. subst m'. split; assumption.
 Qed.
@@ -441,6 +446,9 @@ Proof.
       intros r [<- | Hin]; [cbn [fst snd]; rewrite SA; reflexivity | apply Hr, Hin].
     + apply mu_pc_idle_false in MI. destruct SA as [SA | [SA _]]; [|contradiction].
       apply (XInv_mw _ _ _ _ t); [exact H0 | exact HI' | exact HF |]. unfold xget. rewrite Hx. cbn [x_pc xpc_ok]. auto.
+  - (* XgStore *) assert (t < n)%nat as Ht by (apply HtN; discriminate). cbn [fst]. xn Hx.
+    apply XInv_upd; [exact H0 | exact Ht | inv_conv HI | frame_tac | | exact Hr].
+    cbn [x_pc xpc_ok w_m w_lm]. destruct Hp as [PI Hh]. auto.
 Qed.
 
 Lemma xstep_inv xw a : XInv xw -> XInv (fst (xstep xw a)).
